@@ -112,6 +112,9 @@ def gen(rng, tier):
         nd = rng.randrange(1, 5)
         w = {"add": 3, "cb": 3, "eb": 2, "cancel": 3}   # no pause/unpause: independent of the C01 finding F1
         cases.append(K.rand_program(rng, nd, rng.randrange(3, 16), weights=w))
+    # callbacks that run kernel operations, incl. cancel() and late results, with all canceller kinds
+    for _ in range(500 if tier == "quick" else 8000):
+        cases.append(K.rand_script_program(rng, rng.randrange(1, 5), rng.randrange(2, 14), cancellers=True, pauses=False))
     # Deferred debugging (defer.setDebugging(True)) must not change anything observable: a sample once more with it on
     cases += K.with_debug(cases, rng, 0.12 if tier == "quick" else 0.08)
     return cases
@@ -155,6 +158,21 @@ def _ret_of(case, k, arg_is_failure):
 
 
 def oracle(case, obs):
+    if K.has_scripts(case):
+        # operations executed inside callbacks put firings / canceller calls into any operation: only the exact
+        # comparison with the reference interpreter applies
+        want = K.reference(case)
+        if "!" in obs.split(" | ")[0]:
+            return Failure(case, "an exception raised by a callback escaped from the call", "callback-exception-escaped")
+        if want != obs:
+            wb, ob = want.split(" | ")[0].split(" "), obs.split(" | ")[0].split(" ")
+            for k, (a, b) in enumerate(zip(wb, ob)):
+                if a != b:
+                    return Failure(case, f"op {k} {case['ops'][k]}: implementation {b}, reference interpreter {a}",
+                                   "differs-from-reference:script-" + case["ops"][k][0])
+            return Failure(case, f"final state {obs.split(' | ')[1]}, reference interpreter {want.split(' | ')[1]}",
+                           "differs-from-reference:script-final")
+        return None
     ops = case["ops"]
     nd = len(case["canc"])
     body, _, final = obs.partition(" | ")
@@ -280,6 +298,8 @@ def shrink(case):
 
 
 def histogram(case, obs):
+    if K.has_scripts(case):
+        return "with scripts" + (" (debug)" if case.get("debug") else "")
     if case.get("debug"):
         return "under defer.setDebugging(True)"
     c = case["canc"]
@@ -293,9 +313,9 @@ def histogram(case, obs):
 SPEC = Spec(
     pid="C03",
     gen=gen, impl=K.run_program, oracle=oracle, corpus=corpus, shrink=shrink,
-    coq_header="From TwLib Require Import DeferredK DeferredKShow.\nFrom C03 Require Import Run.",
-    coq_fn="run_show",
-    to_coq=K.coq_program,
+    coq_header="From TwLib Require Import DeferredK DeferredKShow DeferredKR DeferredKRShow.\nFrom C03 Require Import Run.",
+    coq_fn="show_any",
+    to_coq=K.coq_any_program,
     nontrivial=lambda c, o: any(t in o for t in ("A", "S", "K", "EC")),
     histogram=histogram,
     describe=lambda c: {"canc": c["canc"], "ops": c["ops"][:12], "debug": bool(c.get("debug"))},
